@@ -32,7 +32,24 @@ def origin(prog: Prog, fn: Fn, name: str, depth: int = 0) -> str:
     for kind, node in defs:
         val = getattr(node, "value", None)
         if kind in ("assign", "walrus", "annassign") and val is not None:
-            toks.add(_src(prog, fn, val, depth + 1))
+            # `x = a if c else b` and `x = b` / `if c: x = a` bind x to the same two sources
+            alts = [val]
+            flat = []
+            while alts:
+                v = alts.pop()
+                if isinstance(v, ast.IfExp):
+                    alts += [v.body, v.orelse]
+                elif isinstance(v, ast.BoolOp) and isinstance(v.op, ast.Or):
+                    alts += list(v.values)
+                else:
+                    flat.append(v)
+            for v in flat:
+                tk = _src(prog, fn, v, depth + 1)
+                # a nested origin `<a|b>` contributes its members
+                if tk.startswith("<") and tk.endswith(">") and tk.count("<") == 1:
+                    toks.update(tk[1:-1].split("|"))
+                else:
+                    toks.add(tk)
         elif kind == "augassign":
             toks.add("+=" + _src(prog, fn, node.value, depth + 1))
         elif kind in ("for", "comp"):
